@@ -33,7 +33,7 @@ CANDIDATES = {
 IN_CHARSET = ["a", "b", "s", "d", "A", "B", "C", "n"]
 CHARSET = ["#"] + [ch for tok in IN_CHARSET for ch in CANDIDATES[tok]]
 REVMAP = {ch: tok for tok, chs in CANDIDATES.items() for ch in chs}
-SITUATIONS = ["peaky", "mid", "diffuse", "window", "unkwin", "tight", "short", "nocoords", "charsnone", "nochars",
+SITUATIONS = ["peaky", "mid", "diffuse", "window", "unkwin", "tight", "tightwin", "short", "nocoords", "charsnone", "nochars",
               "nologits"]
 NONE_CONF = 2000000
 LINE_STEP = 20          # line with layout position t has VPOS = LINE_STEP * t
@@ -132,7 +132,7 @@ def build_line(concrete, sit, tag):
     quality = sit if sit in ("mid", "diffuse") else "peaky"
     if sit == "short":
         rows = [_frame(nb)]
-    elif sit == "tight":
+    elif sit in ("tight", "tightwin"):
         rows = [_frame(nb, lab, quality) for lab in labels]
     else:
         rows = [_frame(nb, None, quality)]
@@ -140,7 +140,7 @@ def build_line(concrete, sit, tag):
             rows += [_frame(nb, lab, quality), _frame(nb, None, quality)]
     t = len(rows)
     coords = [0, t]
-    if sit == "window":
+    if sit in ("window", "tightwin"):
         rows = [_frame(nb)] * 2 + rows + [_frame(nb)] * 2
         coords = [2, 2 + t]
     elif sit == "unkwin":
